@@ -282,6 +282,12 @@ func init() {
 					if ok && scanErrs[prog.IdentObj(c.Info, x)] {
 						return 0, !notNil, true
 					}
+					// *p in an extracted helper that was handed &scanErr
+					if st, isStar := ast.Unparen(x).(*ast.StarExpr); ok && isStar {
+						if u, isAddr := deref(c.Info, st.X).(*ast.UnaryExpr); isAddr && u.Op == token.AND && scanErrs[prog.IdentObj(c.Info, u.X)] {
+							return 0, !notNil, true
+						}
+					}
 					return 0, false, false
 				}
 				spec.Step = func(c *pathsim.Ctx, s pathsim.State, ev *pathsim.Event) []pathsim.State {
